@@ -188,5 +188,11 @@ def generate_jaqal_value(val):
         or isinstance(val, AnnotatedValue)
     ):
         return val.name
-    elif isinstance(val, float) or isinstance(val, int):
+    elif isinstance(val, float):
+        # Jaqal numbers need a decimal point before any exponent (1e-06 is not one)
+        mantissa, exp, exponent = repr(val).partition("e")
+        if exp and "." not in mantissa:
+            mantissa += ".0"
+        return mantissa + exp + exponent
+    elif isinstance(val, int):
         return str(val)
